@@ -6,6 +6,14 @@ checks = {
    text="Every ToX[C] instantiation (10 targets x 16 source kinds incl. named float/int types) is proved against 'Z(result) == clamp(trunc(i), MinT, MaxT)' for all bit patterns of the source; the two boundary helpers are proved against their own contracts and callers only use those contracts; each float->int conversion instruction is proved to have its operand inside the target range; no panicking instruction is reachable.",
    note="Trusted: govc VC generator + go/ssa lowering, the three SMT solvers, Go semantics as encoded (linux/amd64; out-of-range float->int treated as unspecified). NaN inputs excluded by precondition (the statement defines no nearest bound). Monotonicity follows from the proved closed form (clamp∘trunc is monotone) and is not a separate obligation.",
    ref="§5 C10"),
+ "C11": dict(level="proof", technique="contract-based deductive verification over an error algebra (errors.Is as an uninterpreted relation with reflexivity / atomic-sentinel / %w-wrapping axioms), SMT-discharged postconditions on the real constructors and converters",
+   text="Errorf/New/Newf/WrapError(f)/WrapIfNotCommonError(f) are proved to return a fresh error that matches exactly the kind they were given (wrapK), with a cancellation/deadline cause always surfacing as ErrCancelled/ErrTimeout; Any/None are proved against their quantified definition (loop invariant); ConvertContextError, ConvertIOError, ConvertFileSystemError, convertZipError, ConvertProcessError, platform.ConvertError are proved nil-iff-nil (ESRCH exception explicit), context kinds preserved, and each result is the input or one of the library kinds; deserialiseCommonError is verified once per kind text (finite domain, 33 cases) to return exactly that kind.",
+   note="Trusted: govc, go/ssa, the solvers; the errors.Is algebra (fmt.Errorf %w, errors.New atomic, errors.Join) and syscall.Errno.Is as read from the standard library; os.IsTimeout/IsExist/... as deterministic unknown predicates. Not decided: reason-text equality up to whitespace through Split/Trim/Join (processErrorStrLine), multi-error joins beyond kinds.",
+   ref="§5 C11"),
+ "C14": dict(level="proof", technique="contract-based deductive verification: bit-vector/IEEE-float postconditions on the real back-off policies and Retry-After parser, loop invariant on parseDate, lemma over the closed form",
+   text="findRetryAfter: found ==> wait >= 0 and only on 429/503 (all header values, clock arbitrary at every read); Basic policy: result == min unless the enabled hint applies, never negative; Linear policy: the dependency's documented range is passed through unchanged; Exponential policy: min <= result <= max for every n in [0,2^31], closed form min<<n capped at max for n <= 9, == max (or 0 when min == 0) above 100, monotone lemma; BackOffPolicyFactory: policy kind and Retry-After switch as a function of the configuration flags; parseDate proved equivalent to 'some of the five layouts parses'.",
+   note="Trusted: govc, go/ssa, solvers; math.Pow(2,float64(n)) exact power of two (IEEE), retryablehttp.LinearJitterBackoff's documented range, strconv.ParseInt/time.Parse as deterministic functions. Not decided: attempt counting inside retry-go (RetryIf/RetryOnError hand the configuration to retry.Do; the dependency's loop is not under contract), closed form of the exponential policy for 9 < n <= 100 (solver limit on fp.mul with a symbolic exponent; range and the two outer closed forms are proved), wall-clock spacing.",
+   ref="§5 C14"),
 }
 not_applicable = {
  "C05": "observable is the set of live OS processes and a wall-clock bound (kernel, os/exec, gopsutil): no contract on a /repo function can state it",
